@@ -267,6 +267,9 @@ class C02(common.Prop):
         if r[1] != content:
             diff = [k for k in content if r[1].get(k) != content[k]]
             return {"what": "reference-encoded file is read to different content: %s" % diff, "kind": "read-differs", "field": diff[0]}
+        msg = pg.rewrite_after_edit(case)
+        if msg:
+            return {"what": msg, "kind": "rewrite-after-edit"}
         if case.get("_rewrite_err"):
             return {"what": "re-writing the pose that was just read raises %s" % case["_rewrite_err"], "kind": "rewrite-raises"}
         if case["_rewrite"] is not None and canon_tail(case["_rewrite"], nf) != b:
